@@ -19,13 +19,14 @@ RULE = ("case = a text assembled from ordinary words, valid hashtags ([A-Za-z_][
         "reconstructed from rule-application events); with all other words inert and the expression fully consumed, the "
         "no-match path gives the same labels and subject. non-trivial = the full text resolves and has >= 1 hashtag and >= 1 "
         "word; distinct on (text, reference time).")
-ASSUMPTIONS = ["configuration D (timeout=0)", "'-' is not used as a separator between words (the subject splits on it by design)",
+ASSUMPTIONS = ["configuration D (timeout=0)", "a free-standing '-' is not used between words (dashes are not in the library's separator class; the subject "
+               "splits on them by design), hyphenated ordinary words are; hashtags are placed between the pieces, never inside the time expression",
                "words that are neither observed inert nor in the provenance of the result are unconstrained"]
 
 WORDS = ["zzz", "qqq", "lorem", "beers", "burgers", "gift", "pizza", "buy", "kwyjibo", "flug", "hotel", "zug", "with", "bob", "alice", "projekt",
          "review", "yoga", "lunch", "besprechung", "sync", "flight", "paris", "report", "send", "pay", "rent", "gym", "party", "zahnarzt",
          "geburtstag", "urlaub", "büro", "workshop", "deploy", "backup", "taxes", "groceries", "vet", "haircut", "books", "code", "ship", "plan",
-         "Write", "READ", "Walk", "meeting", "call", "milk", "dentist"]
+         "Write", "READ", "Walk", "meeting", "call", "milk", "dentist", "follow-up", "x-ray", "e-mail", "check-in", "kick-off-termin"]
 TAGS = ["work", "Family", "a1", "x-y", "_u", "To_Do", "p-1-2", "URGENT", "q", "home_office", "r2d2", "t-"]
 SEPS = [" ", " ", " ", "  ", ", ", "; ", " , ", ",", "\t", " ( ", ") ", " [", "] ", "\n", " "]
 TSS = ["2021-03-10T12:43:30", "2020-02-29T23:59:00", "2019-12-31T08:00:00", "2024-02-28T23:10:00"]
@@ -102,7 +103,8 @@ def run_case(case, ctx):
     def run(text):
         r = C.api(ctx, text, ts)
         norm = mon.case_norm if mon.case_norm is not None else ""
-        return r, norm, list(mon.case_matches), (set(mon.prov.get(id(r.resolution), set())) if r is not None and r.resolution is not None else None)
+        return r, (mon.case_search_text if mon.case_search_text is not None else D.strip_labels(norm)), list(mon.case_matches), \
+            (set(mon.prov.get(id(r.resolution), set())) if r is not None and r.resolution is not None else None)
 
     r_full, norm_full, matches_full, prov = run(full)
     r_not, norm_not, _, _ = run(_build(case, with_tags=False))
@@ -123,13 +125,18 @@ def run_case(case, ctx):
             probs.append(("hashtag-in-subject/" + name, "%s: subject %r contains a hashtag of %r" % (name, r.subject, tags)))
     # C. hashtags change neither resolution nor the rest of the subject
     if C.resv(r_full) != C.resv(r_not):
-        probs.append(("hashtags-change-resolution", "with hashtags %s, without %s" % (V.show(C.resv(r_full)), V.show(C.resv(r_not)))))
+        # label only: is the depth limit the only reason? (identical call with max_stack_depth=0)
+        try:
+            eq0 = C.resv(C.api(ctx, full, ts, max_stack_depth=0)) == C.resv(C.api(ctx, _build(case, with_tags=False), ts, max_stack_depth=0))
+        except Exception:
+            eq0 = False
+        probs.append((("beam-truncation/" if eq0 else "") + "hashtags-change-resolution", "with hashtags %s, without %s" % (V.show(C.resv(r_full)), V.show(C.resv(r_not)))))
     if r_full.subject != r_not.subject:
         probs.append(("hashtags-change-subject" + ("/no-match-path" if r_full.resolution is None else ""), "with hashtags %r, without %r" % (r_full.subject, r_not.subject)))
     if r_noe.subject != r_none.subject:
         probs.append(("hashtags-change-subject" + ("/no-match-path" if r_noe.resolution is None else ""), "(no expression) with hashtags %r, without %r" % (r_noe.subject, r_none.subject)))
     # D. subject of the full run: ordered sub-sequence, keeps inert words, drops provenance words
-    stripped = D.strip_labels(norm_full)
+    stripped = norm_full      # the text the library searched in, as observed at _match_regex (match positions refer to it)
     toks = _words(stripped)
     sub = r_full.subject.split()
     input_words = []
@@ -142,6 +149,16 @@ def run_case(case, ctx):
     inert_words = [x for w, s, e in inert for x in re.split(r"-+", w) if x]
     if not _is_subseq(inert_words, sub):
         probs.append(("inert-word-lost" + ("/no-match-path" if r_full.resolution is None else ""), "words no pattern touched %r are not all kept (in order) in the subject %r" % (inert_words, r_full.subject)))
+    # the same two clauses on the run without the expression (usually the no-match path)
+    toks_n = _words(norm_noe)
+    sub_n = r_noe.subject.split()
+    words_n = [x for w, s_, e_ in toks_n for x in re.split(r"-+", w) if x]
+    tag = "/no-match-path" if r_noe.resolution is None else ""
+    if not _is_subseq(sub_n, words_n):
+        probs.append(("subject-not-a-subsequence" + tag, "(no expression) subject %r is not an ordered sub-sequence of the words of %r" % (r_noe.subject, norm_noe)))
+    inert_n = [x for (w, s_, e_) in toks_n if not any(ms < e_ and me > s_ for (_id, ms, me) in matches_noe) for x in re.split(r"-+", w) if x]
+    if not _is_subseq(inert_n, sub_n):
+        probs.append(("inert-word-lost" + tag, "(no expression) words no pattern touched %r are not all kept (in order) in the subject %r" % (inert_n, r_noe.subject)))
     consumed_all = False
     if r_full.resolution is not None and prov:
         mon.events["provenance_reconstructed"] += 1
